@@ -12,14 +12,14 @@ def cfgs(ctx):
         return [("Traversal_path4.cfg", None, None), ("Traversal_wide2.cfg", None, None),
                 ("Traversal_sim.cfg", "num=50", 8)]
     return [("Traversal_path5.cfg", None, None), ("Traversal_narrow3.cfg", None, None), ("Traversal_wide2.cfg", None, None), ("Traversal_plan3.cfg", None, None),
-            ("Traversal_sim.cfg", "num=6000", 8)]
+            ("Traversal_sim.cfg", "num=3000", 8)]
 
 
 def run(ctx):
     total = nontriv = nbad = 0
     for cfg, sim, depth in cfgs(ctx):
         graphs, states = travrun.gen_states(ctx, cfg, simulate=sim, depth=depth)
-        states = travrun.thin(ctx, states, 15 if ctx.tier == "quick" else 800)
+        states = travrun.thin(ctx, states, 15 if ctx.tier == "quick" else 300)
         outs = travrun.replay(ctx, graphs, states, only="prod", tag=cfg.split(".")[0])
         bad = travrun.failures(states, outs, "prod")
         nbad += len(bad)
@@ -32,6 +32,8 @@ def run(ctx):
         # C10, second sentence: the same traversal gives the same rows whichever embedded store backs the graph
         if ctx.tier != "quick" and cfg == "Traversal_wide2.cfg":
             light = [s for s in states if not travrun.is_heavy(s)]
+            if len(light) > 40000:
+                light = [light[i] for i in sorted(ctx.rng.sample(range(len(light)), 40000))]
             for drv in ("bolt", "level", "pebble"):
                 o2 = travrun.replay(ctx, graphs, light, only="prod", tag="wide2_" + drv, driver=drv)
                 b2 = travrun.minimal(light, travrun.failures(light, o2, "prod"))
@@ -39,7 +41,7 @@ def run(ctx):
                     for kind, detail in r:
                         ctx.diverge("trav-prod[%s]: %s at %s" % (drv, kind, travcmp.ops(light[i]["prog"])), "%s %s" % (kind, detail),
                                     dict(driver=drv, graph=graphs[light[i]["g"] - 1], state=light[i], outcome=o2[i]))
-            ctx.notes.append("wide2 states also replayed on bolt, level, pebble")
+            ctx.notes.append("a seeded sample of %d wide2 states also replayed on bolt, level, pebble" % len(light))
         total += len(states)
         nontriv += sum(1 for s in states if s["status"] == "ok" and s["rows"])
         for s in states[:: max(1, len(states) // 3)]:
